@@ -1198,7 +1198,14 @@ class WorldA:
             try:
                 outs = self.eval_all(c)
             except Exception as e:
-                raise Violation("I4", f"{c.name} raises {type(e).__name__}: {str(e)[:120]}")
+                # differential, as everywhere: a failure that a recompilation from the current
+                # values shows as well is a function of the values (e.g. a standard deviation
+                # pushed below zero by an update), not of the history
+                if all(self._reference_evaluates(c, X) for X in self.probes_for(c)):
+                    raise Violation("I4", f"{c.name} raises {type(e).__name__}: {str(e)[:120]} "
+                                          f"(a recompilation from the current values evaluates)")
+                self.tr.count(f"memo:value-excluded:{type(e).__name__}")
+                continue
             prev = self.memo_vals.get(key)
             if prev is None:
                 self.memo_vals[key] = [o.clone() for o in outs]
